@@ -234,7 +234,10 @@ def run_check(prop, tier):
     for key in sorted(seen_known):
         lines.append('KNOWN-FINDING: property={} {} -- {}'.format(
             prop, key, known[key].get('what', '')))
-    os.makedirs(os.path.join(VERIF, 'replays'), exist_ok=True)
+    replay_dir = os.path.join(VERIF, 'replays')
+    if os.environ.get('VERIF_EVIDENCE_DIR'):
+        replay_dir = os.path.join(os.environ['VERIF_EVIDENCE_DIR'], 'replays')
+    os.makedirs(replay_dir, exist_ok=True)
     seen_mech = {}
     for v in unlisted:
         seen_mech.setdefault(v['mech'], []).append(v)
@@ -242,7 +245,7 @@ def run_check(prop, tier):
         v = vs[0]
         doc = {'property': prop, 'tier': tier, 'seed': seed, 'mech': mech,
                'what': v['what'], 'replay': v['replay'], 'count': len(vs)}
-        path = os.path.join(VERIF, 'replays', '{}-{}.json'.format(
+        path = os.path.join(replay_dir, '{}-{}.json'.format(
             prop, sig([mech, v['what']])))
         with open(path, 'w') as f:
             f.write(dumps(doc, indent=1))
@@ -283,8 +286,10 @@ def run_check(prop, tier):
                     3: 'inconclusive'}[exit_code],
         'repo': os.environ.get('VERIF_REPO', '/repo'),
     }
-    os.makedirs(os.path.join(VERIF, 'evidence'), exist_ok=True)
-    with open(os.path.join(VERIF, 'evidence', prop + '.json'), 'w') as f:
+    # (the mutant self-test redirects evidence and replays of its scratch runs)
+    ev_dir = os.environ.get('VERIF_EVIDENCE_DIR') or os.path.join(VERIF, 'evidence')
+    os.makedirs(ev_dir, exist_ok=True)
+    with open(os.path.join(ev_dir, prop + '.json'), 'w') as f:
         f.write(dumps(evidence, indent=1))
     # clean the work directory
     for fn in os.listdir(tmpdir):
